@@ -219,6 +219,32 @@ Theorem C17_fit_adjust_state : forall summ obs thetas bs n,
 Proof. exact fit_adjust_state. Qed.
 Print Assumptions C17_fit_adjust_state.
 
+(** ONE object used on a history of samples (each entry: a fit, then n adjust() calls): every entry
+    returns what a fresh object returns for that sample -- nothing of an earlier fit survives -- and
+    the object ends as its last fit made it: X of the last sample, one fitted model per parameter of
+    the last fit (the per-case clause [a_impl_nmodels = length a_params]) *)
+Theorem C17_history_fresh : forall h st,
+  snd (run_history st h) = map fresh_result h
+  /\ fst (run_history st h) = match rev h with [] => st | (a, _) :: _ => refit st a end.
+Proof. exact run_history_spec. Qed.
+Print Assumptions C17_history_fresh.
+
+Theorem C17_history_last : forall st h a n,
+  let st' := fst (run_history st (h ++ [(a, n)])) in
+  st_X st' = input_variables (f_summ a) (f_obs a) /\ length (st_coefs st') = length (f_bs a)
+  /\ length (st_masks st') = length (f_thetas a).
+Proof. exact run_history_last. Qed.
+Print Assumptions C17_history_last.
+
+Example C17_example_history :
+  let a1 := {| f_summ := [[Some 1]; [Some 2]; [Some 3]]; f_obs := [Some 0];
+               f_thetas := [[Some 1; Some 2; Some 3]]; f_bs := [[1]] |} in
+  let a2 := {| f_summ := [[Some 1]; [None]; [Some 3]]; f_obs := [Some 0];
+               f_thetas := [[Some 2; Some 4; Some 6]; [Some 0; Some 1; None]]; f_bs := [[2]; [5]] |} in
+  snd (run_history (fit_state [] [] [] []) [(a1, 1%nat); (a2, 2%nat)])
+  = [[Some [[0; 0; 0]]]; [Some [[0; 0]; [-5]]; Some [[0; 0]; [-5]]]].
+Proof. vm_compute. reflexivity. Qed.
+
 (** non-vacuity: theta = [1;2;4] on x = [1;2;3]: (b0, b) = (-2/3, 3/2) is the fit with intercept,
     (0, 17/14) the fit through the origin; neither passes for the other configuration.  theta = [4;2;1]:
     the non-negative fit with intercept is (7/3, 0) (the unconstrained slope -3/2 is rejected). *)
